@@ -9,7 +9,7 @@
      feed      = `while (read_message());` + consumption of PIECE / extension payload that is
                  already available, as a function of (handler state, read mode, bytes)
      ev        = one call of event_read(): fill target 13/512, recv with a per-read budget,
-                 early return on a 0-byte read, READ_SKIP_PIECE / READ_PIECE / READ_EXTENSION
+                 on a 0-byte read: parse what is buffered, then return, READ_SKIP_PIECE / READ_PIECE / READ_EXTENSION
                  sub-states, loop condition `remaining > 0 || size_end == target`
      run       = handover from the handshake (push_unread + event_read) followed by the
                  poll-driven delivery of a list of TCP segments
@@ -26,7 +26,7 @@ From LTV.C03 Require Import ParamsGen.
 Import ListNotations.
 Open Scope N_scope.
 
-Inductive role := Leech | Seed | ISeed.
+Inductive role := Leech | Seed | ISeed | Meta.   (* Meta = PeerConnectionMetadata (magnet download) *)
 
 Inductive msg :=
 | MKeepAlive | MChoke | MUnchoke | MInterested | MNotInterested
@@ -34,7 +34,9 @@ Inductive msg :=
 | MPiece (i o len : N)      (* 13-byte header decoded; len payload bytes follow *)
 | MPieceDone                (* payload consumed: down_chunk_finished *)
 | MExt (ty len : N)         (* 6-byte header accepted by read_start *)
-| MExtDone.                 (* payload complete: read_done *)
+| MExtDone                  (* payload complete: read_done *)
+| MBitfield (len : N)       (* metadata connection only: BITFIELD header, len bytes to discard *)
+| MBitsDone.
 
 Inductive reason := RLen | RUnknownId | RPieceRole | RPieceShort | RExtBad | RFull | RHandler.
 Inductive effect := EMsg (m : msg) | EClose (r : reason) | EFatal.
@@ -56,6 +58,7 @@ Definition rd32 (l : list N) (k : nat) : option N :=
 Inductive hdr := NeedMore | HFault | Bad (r : reason) | HFatal | Got (m : msg) (n : nat).
 
 Definition is_leech (r : role) : bool := match r with Leech => true | _ => false end.
+Definition is_meta (r : role) : bool := match r with Meta => true | _ => false end.
 
 (* uint32 `length - 2` as computed by read_message before read_start *)
 Definition sub32 (a b : N) : N := (a + 4294967296 - b) mod 4294967296.
@@ -104,6 +107,10 @@ Definition one_body (r : role) (len id : N) (l : list N) : hdr :=
       if 2147483648 <=? elen then HFatal else
       Got (MExt ty elen) 6
     end
+  else if id =? 5 then
+    (* BITFIELD after the handshake: PeerConnection<> has no case for it (default: unsupported
+       message type); PeerConnectionMetadata discards length - 1 bytes *)
+    if is_meta r then Got (MBitfield (len - 1)) 5 else Bad RUnknownId
   else Bad RUnknownId.
 
 (* One read_message() call on the unread bytes l.  Got m n: n header bytes consumed. *)
@@ -121,10 +128,11 @@ Definition one_msg (r : role) (l : list N) : hdr :=
     end
   end.
 
-Inductive paykind := KPiece | KExt.
+Inductive paykind := KPiece | KExt | KBits.
 Inductive rmode := RIdle | RPay (k : paykind) (lft : N) | RClosed.
 
-Definition pay_done (k : paykind) : msg := match k with KPiece => MPieceDone | KExt => MExtDone end.
+Definition pay_done (k : paykind) : msg :=
+  match k with KPiece => MPieceDone | KExt => MExtDone | KBits => MBitsDone end.
 
 Section Framing.
 Variable HS : Type.
@@ -141,6 +149,7 @@ Definition after (m : msg) : option (paykind * N) :=
   match m with
   | MPiece _ _ len => Some (KPiece, len)
   | MExt _ len => Some (KExt, len)
+  | MBitfield len => Some (KBits, len)
   | _ => None
   end.
 
@@ -186,6 +195,46 @@ Fixpoint feed (fuel : nat) (h : HS) (m : rmode) (l : list N) : pres :=
     end
   end.
 
+(* What PeerConnectionMetadata's `while (read_message());` does: as feed, but the BITFIELD case
+   only records the length and returns false -- the bytes to discard, and whatever follows them
+   in the buffer, stay in the buffer (mode RPay KBits with a non-empty rest). *)
+Fixpoint feeds (fuel : nat) (h : HS) (m : rmode) (l : list N) : pres :=
+  match fuel with
+  | O => POut
+  | S f =>
+    match m with
+    | RClosed => PRes h RClosed [] []
+    | RPay k lft =>
+      if N.of_nat (length l) <? lft then PRes h (RPay k (lft - N.of_nat (length l))) [] []
+      else
+        let (h', v) := handle h (pay_done k) in
+        match v with
+        | VCont => pcons (EMsg (pay_done k)) (feeds f h' RIdle (skipn (N.to_nat lft) l))
+        | VClose => PRes h' RClosed [] [EMsg (pay_done k); EClose RHandler]
+        | VFatal => PRes h' RClosed [] [EMsg (pay_done k); EFatal]
+        end
+    | RIdle =>
+      match one_msg rl l with
+      | NeedMore => PRes h RIdle l []
+      | HFault => PFault
+      | Bad r => PRes h RClosed [] [EClose r]
+      | HFatal => PRes h RClosed [] [EFatal]
+      | Got mg n =>
+        let (h', v) := handle h mg in
+        match v with
+        | VClose => PRes h' RClosed [] [EMsg mg; EClose RHandler]
+        | VFatal => PRes h' RClosed [] [EMsg mg; EFatal]
+        | VCont =>
+          match after mg with
+          | None => pcons (EMsg mg) (feeds f h' RIdle (skipn n l))
+          | Some (KBits, len) => PRes h' (RPay KBits len) (skipn n l) [EMsg mg]
+          | Some (k, len) => pcons (EMsg mg) (feeds f h' (RPay k len) (skipn n l))
+          end
+        end
+      end
+    end
+  end.
+
 (* the specification of the whole connection: decode the concatenated stream at once *)
 Definition decode (h : HS) (s : list N) : pres := feed (S (length s)) h RIdle s.
 
@@ -221,7 +270,14 @@ Fixpoint ev (fuel : nat) (s : mst) (avail : list N) : mres :=
         let got := firstn want avail in
         let avail1 := skipn want avail in
         match got with
-        | [] => MRet s avail []                      (* length == 0: move_unused(); return *)
+        | [] =>
+          (* length == 0 (commit 5c4764e): `while (read_message());` on what the buffer already
+             holds (bytes handed over with the handshake), then move_unused(); return *)
+          match feed (S n0) (m_h s) RIdle (m_buf s) with
+          | PFault => MFault
+          | POut => MOut
+          | PRes h1 m1 b1 es1 => MRet (mk_mst h1 m1 b1 (S (m_cnt s))) avail es1
+          end
         | _ :: _ =>
           let send := (n0 + length got)%nat in
           if (bufcap <? send)%nat then MFault else    (* write past the 512-byte buffer *)
@@ -327,6 +383,121 @@ Definition run (h : HS) (pre : list N) (segs : list (list N)) : mres :=
   | x => x
   end.
 
+(* ---- PeerConnectionMetadata::event_read ---------------------------------------------------- *)
+(* IDLE: fill to 512 (no return on a 0-byte read), parse, loop only if the buffer was filled to
+   512; READ_SKIP_PIECE (= discarding a bitfield): read_skip_bitfield first eats from the buffer,
+   then does one recv; READ_EXTENSION as in PeerConnection<>. *)
+Fixpoint ev_meta (fuel : nat) (s : mst) (avail : list N) : mres :=
+  match fuel with
+  | O => MOut
+  | S f =>
+    match m_mode s with
+    | RClosed => MRet s avail []
+    | RIdle =>
+      let n0 := length (m_buf s) in
+      let want := if (n0 <? bufsz)%nat then Nat.min (bufsz - n0) (cap (m_cnt s)) else O in
+      let got := firstn want avail in
+      let avail1 := skipn want avail in
+      let send := (n0 + length got)%nat in
+      if (bufcap <? send)%nat then MFault else
+      match feeds (S send) (m_h s) RIdle (m_buf s ++ got) with
+      | PFault => MFault
+      | POut => MOut
+      | PRes h1 m1 b1 es1 =>
+        match m1 with
+        | RPay KExt lft =>
+          let c1 := S (m_cnt s) in
+          let want2 := Nat.min (N.to_nat lft) (cap c1) in
+          let got2 := firstn want2 avail1 in
+          let avail2 := skipn want2 avail1 in
+          match feed (S (S (length got2))) h1 m1 got2 with
+          | PFault => MFault
+          | POut => MOut
+          | PRes h2 m2 b2 es2 =>
+            let s2 := mk_mst h2 m2 b2 (S c1) in
+            if (send =? bufsz)%nat then mapp (es1 ++ es2) (ev_meta f s2 avail2)
+            else MRet s2 avail2 (es1 ++ es2)
+          end
+        | _ =>
+          let s1 := mk_mst h1 m1 b1 (S (m_cnt s)) in
+          if (send =? bufsz)%nat then mapp es1 (ev_meta f s1 avail1) else MRet s1 avail1 es1
+        end
+      end
+    | RPay k lft =>
+      (* from the buffer first *)
+      let c := Nat.min (N.to_nat lft) (length (m_buf s)) in
+      let rest := skipn c (m_buf s) in
+      match feed (S (S c)) (m_h s) (RPay k lft) (firstn c (m_buf s)) with
+      | PFault => MFault
+      | POut => MOut
+      | PRes h1 m1 _ es1 =>
+        match m1 with
+        | RIdle => mapp es1 (ev_meta f (mk_mst h1 RIdle rest (m_cnt s)) avail)
+        | RClosed => MRet (mk_mst h1 RClosed [] (m_cnt s)) avail es1
+        | RPay k1 lft1 =>
+          let want := Nat.min (N.to_nat lft1) (cap (m_cnt s)) in
+          let got := firstn want avail in
+          let avail1 := skipn want avail in
+          match got with
+          | [] => MRet (mk_mst h1 m1 rest (m_cnt s)) avail es1
+          | _ :: _ =>
+            match feed (S (S (length got))) h1 m1 got with
+            | PFault => MFault
+            | POut => MOut
+            | PRes h2 m2 _ es2 =>
+              let s2 := mk_mst h2 m2 rest (S (m_cnt s)) in
+              match m2 with
+              | RIdle => mapp (es1 ++ es2) (ev_meta f s2 avail1)
+              | _ => MRet s2 avail1 (es1 ++ es2)
+              end
+            end
+          end
+        end
+      end
+    end
+  end.
+
+Definition evm_fuel (avail : list N) : nat := S (S (S (S (2 * length avail)))).
+
+Fixpoint drain_meta (fuel : nat) (s : mst) (avail : list N) : mres :=
+  match fuel with
+  | O => MOut
+  | S f =>
+    match avail with
+    | [] => MRet s [] []
+    | _ :: _ =>
+      match m_mode s with
+      | RClosed => MRet s [] []
+      | _ =>
+        match ev_meta (evm_fuel avail) s avail with
+        | MRet s1 a1 es1 =>
+          if (length a1 <? length avail)%nat then mapp es1 (drain_meta f s1 a1)
+          else MRet s1 a1 es1     (* no progress on the socket: not reachable *)
+        | x => x
+        end
+      end
+    end
+  end.
+
+Fixpoint run_segs_meta (s : mst) (segs : list (list N)) : mres :=
+  match segs with
+  | [] => MRet s [] []
+  | seg :: more =>
+    match drain_meta (drain_fuel seg) s seg with
+    | MRet s1 _ es1 => mapp es1 (run_segs_meta s1 more)
+    | x => x
+    end
+  end.
+
+Definition run_meta (h : HS) (pre : list N) (segs : list (list N)) : mres :=
+  match (match pre with
+         | [] => MRet (mk_mst h RIdle [] 0) [] []
+         | _ :: _ => ev_meta (evm_fuel []) (mk_mst h RIdle pre 0) []
+         end) with
+  | MRet s0 _ es0 => mapp es0 (run_segs_meta s0 segs)
+  | x => x
+  end.
+
 End Framing.
 
 Arguments PRes {HS}.
@@ -402,8 +573,9 @@ Definition with_down (h : hst) (d : bool) : hst :=
   mk_hst (h_bits h) (h_queued h) (h_unchoked h) (h_recent h) (h_upq h) d (h_extn h).
 
 Definition hreal (c : cfg) (h : hst) (m : msg) : hst * verdict :=
+  if is_meta (c_role c) && negb (match m with MExtDone => true | _ => false end) then (h, VCont) else
   match m with
-  | MKeepAlive | MPort _ | MPiece _ _ _ | MPieceDone | MExt _ _ => (h, VCont)
+  | MKeepAlive | MPort _ | MPiece _ _ _ | MPieceDone | MExt _ _ | MBitfield _ | MBitsDone => (h, VCont)
   | MChoke => (if is_leech (c_role c) then with_down h false else h, VCont)
   | MUnchoke => (if is_leech (c_role c) then with_down h true else h, VCont)
   | MInterested =>
@@ -416,7 +588,7 @@ Definition hreal (c : cfg) (h : hst) (m : msg) : hst * verdict :=
     if all_set (h_bits h1) then
       match c_role c with
       | Seed => (h1, VClose)
-      | ISeed => (set_not_queued h1, VCont)
+      | ISeed | Meta => (set_not_queued h1, VCont)
       | Leech => if c_done c then (h1, VClose) else (set_not_queued h1, VCont)
       end
     else (h1, VCont)
@@ -435,7 +607,8 @@ Definition hinit (c : cfg) (bits : list bool) (queued unchoked recent : bool) : 
 
 Definition run_real (c : cfg) (budget : nat -> nat) (short : nat -> bool)
            (h0 : hst) (pre : list N) (segs : list (list N)) : mres hst :=
-  run hst (hreal c) (c_role c) budget short h0 pre segs.
+  if is_meta (c_role c) then run_meta hst (hreal c) (c_role c) budget h0 pre segs
+  else run hst (hreal c) (c_role c) budget short h0 pre segs.
 
 Definition decode_real (c : cfg) (h0 : hst) (s : list N) : pres hst :=
   decode hst (hreal c) (c_role c) h0 s.
